@@ -40,7 +40,7 @@ Coprime(a, b) == GCD(a, b) = 1
 LCM(a, b) == IF a = 0 \/ b = 0 THEN 0
              ELSE Abs(a) * SetMin({k \in 1..Abs(b) : (k * Abs(a)) % Abs(b) = 0})
 
-IsPrime(n) == n >= 2 /\ \A d \in 2..(n - 1) : d * d > n \/ n % d # 0      \* n < 2^31, d stops at sqrt
+IsPrime(n) == n >= 2 /\ \A d \in 2..Min2(n - 1, 46340) : d * d > n \/ n % d # 0      \* n < 2^31: trial division up to the square root
 IsPrimeSlow(n) == n >= 2 /\ \A d \in 2..(n - 1) : n % d # 0
 SmallestFactor(n) == SetMin({d \in 2..n : n % d = 0})                        \* n >= 2
 
